@@ -106,6 +106,12 @@ def switch_atom(body, sw_bb):
        plus 'true' / 'false' targets (after undoing `Not`)."""
     blk = body.blocks[sw_bb]
     t = blk["t"]
+    if t["k"] == "switch" and t.get("ty") not in (None, "bool") and str(t.get("ty")).lstrip("ui").replace("size", "64").isdigit() \
+            and len(t["targets"]) == 1 and op_local(t["discr"]) is not None:
+        # `match n { 0 => .., _ => .. }`: an integer switch with one listed value is the comparison `n == value`
+        v, tgt = t["targets"][0]
+        return {"kind": "cmp", "op": "Eq", "lhs": t["discr"], "rhs": {"const": {"c": str(v), "ty": t.get("ty"), "int": v}},
+                "true": tgt, "false": t["otherwise"], "bb": sw_bb}
     if t["k"] != "switch" or t.get("ty") != "bool":
         return None
     d = op_local(t["discr"])
@@ -323,7 +329,11 @@ TRANSPORT_READS = ("tokio::io::util::async_read_ext::AsyncReadExt::read_buf", "t
 def logic_or_inlined(prog, fn, anchors):
     """logic body of `fn`; when the anchor call sits in a private sync helper of the connection (e.g. the parse step moved into
     `parse_received`), the body with such helpers spliced in (A12)"""
-    return splice_predicates(prog, _logic_or_inlined(prog, fn, anchors))
+    b = splice_predicates(prog, _logic_or_inlined(prog, fn, anchors))
+    if b is not None:
+        from .inline import scalarize_tuples
+        b = scalarize_tuples(prog, b)
+    return b
 
 
 def _logic_or_inlined(prog, fn, anchors):
